@@ -1,5 +1,8 @@
 ---------------------------- MODULE KDirSchemaTrace ----------------------------
 (* Validates observations of two REAL servers A and B (driver harness/store/src/c15.rs).
+   Two kinds of histories: replicating pairs at the target domain level, and ("dyn":1) two independent servers kept at
+   domain level 14 where attributetype / classtype entries take effect, so that classes added at run time with their own
+   `must` / `may` are in force (the projected schema joins systemmust+must and systemmay+may).
      {"a":"reset","h":n,"res":"ok","st":{"A":{"ents":[E]},"B":{..}},"schema":{"A":S,"B":S}}
      {"a":"op","op":{..},"applies":0|1,"defect":class,"res":"ok"|"refused"|"panic"|"ok+ok"..,"err":text,"st":..,["schema":..]}
    E = {"id","m":0|1 (harness-made),"live","classes":[..],"attrs":{attr:{"n":k,"syn":tag}},"d":digest}
@@ -21,7 +24,7 @@ Srvs == {"A", "B"}
 
 \* the harness-made entries of a server as a set of (id, digest, liveness) - what a refused operation must leave alone
 Own(st, s) == {<<st[s].ents[i].id, st[s].ents[i].d, st[s].ents[i].live>> : i \in {j \in DOMAIN st[s].ents : st[s].ents[j].m = 1}}
-Single(r) == r.op.op \in {"create", "modify", "recycle", "revive", "schema"}
+Single(r) == r.op.op \in {"create", "modify", "cmodify", "recycle", "revive", "schema"}
 
 Judge == l <= Len(Rec) =>
   LET r == Rec[l]  sc == Rec[SchemaIdx(l)].schema IN
@@ -30,7 +33,7 @@ Judge == l <= Len(Rec) =>
         ((Live(e) => Valid(e, sc[s])) \/ PrintT(<<"L1FAIL", "C15", l, s \o " " \o e.id \o " " \o Why(e, sc[s])>>))
   /\ (r.a = "op" /\ Single(r) /\ r.res # "ok") =>
         \A s \in Srvs : (Own(r.st, s) = Own(Rec[l - 1].st, s) \/ PrintT(<<"L1FAIL", "C15", l, s \o " left-behind">>))
-  /\ (r.a = "op" /\ r.op.op \in {"create", "modify"} /\ r.applies = 1) =>
+  /\ (r.a = "op" /\ r.op.op \in {"create", "modify", "cmodify"} /\ r.applies = 1) =>
         (r.res \in L2Result(r.defect) \/ PrintT(<<"L2DRIFT", "C15", l>>))
 Consumed == TLCGet("stats").distinct = Len(Rec) + 1 \/ PrintT(<<"NOTCONSUMED", TLCGet("stats").distinct, Len(Rec)>>)
 =============================================================================
